@@ -404,6 +404,10 @@ impl Module {
         let out = cx.wasm_module.finish();
         log::debug!("emission finished");
 
+        // Hand the custom sections back to the module: they were only moved
+        // out so that they could be mutated while `cx` borrows `self`.
+        self.customs = customs;
+
         // let mut validator = Validator::new();
         // if let Err(err) = validator.validate_all(&out) {
         //     eprintln!("{:?}", err);
